@@ -134,6 +134,7 @@ pub struct G<'a> {
     members: &'a Members,
     counter: u64,
     fcur: usize,
+    ucur: usize,
     pub stats: BTreeMap<String, u64>,
     pub types_seen: HashMap<(u32, u32), ()>,
     v: AutosarVersion,
@@ -142,7 +143,7 @@ pub struct G<'a> {
 
 impl<'a> G<'a> {
     pub fn new(seed: u64, members: &'a Members) -> Self {
-        G { rng: SplitMix64(seed), members, counter: 0, fcur: 0, stats: BTreeMap::new(), types_seen: HashMap::new(), v: AutosarVersion::LATEST, budget: 0 }
+        G { rng: SplitMix64(seed), members, counter: 0, fcur: 0, ucur: 0, stats: BTreeMap::new(), types_seen: HashMap::new(), v: AutosarVersion::LATEST, budget: 0 }
     }
     fn chance(&mut self, pct: u64) -> bool {
         self.rng.below(100) < pct
@@ -250,6 +251,54 @@ impl<'a> G<'a> {
         s
     }
 
+    /// a string value with a non-ASCII white-space character (or, as controls, U+FEFF / U+200B, which are not White_Space)
+    /// at its first / last / both / an inner position, written literally (UTF-8) or as a decimal / hexadecimal character
+    /// reference.  Only ASCII blanks are insignificant at the edges of a value; all of these are part of the value.
+    /// Round-robin over (character, position, form) so that every combination occurs.
+    fn unicode_edge_value(&mut self) -> GText {
+        const CH: &[u32] = &[
+            0xA0, 0x1680, 0x2000, 0x2001, 0x2002, 0x2003, 0x2004, 0x2005, 0x2006, 0x2007, 0x2008, 0x2009, 0x200A, 0x2028, 0x2029, 0x202F, 0x205F, 0x3000, 0x85, 0xFEFF, 0x200B,
+        ];
+        const W: &[&str] = &["km/h", "in", "x y", "(x)", "value", "a", "1.5 m"];
+        let k = self.ucur;
+        self.ucur += 1;
+        let c = CH[k % CH.len()];
+        let pos = (k / CH.len()) % 4; // 0 first, 1 last, 2 both, 3 inner
+        let form = (k / (CH.len() * 4)) % 3; // 0 literal, 1 decimal, 2 hex
+        let enc = |c: u32| -> Vec<u8> {
+            match form {
+                0 => char::from_u32(c).unwrap().to_string().into_bytes(),
+                1 => format!("&#{};", c).into_bytes(),
+                _ => format!("&#x{:X};", c).into_bytes(),
+            }
+        };
+        let w = W[self.rng.below(W.len() as u64) as usize].as_bytes();
+        let mut raw = Vec::new();
+        match pos {
+            0 => {
+                raw.extend_from_slice(&enc(c));
+                raw.extend_from_slice(w);
+            }
+            1 => {
+                raw.extend_from_slice(w);
+                raw.extend_from_slice(&enc(c));
+            }
+            2 => {
+                raw.extend_from_slice(&enc(c));
+                raw.extend_from_slice(w);
+                raw.extend_from_slice(&enc(CH[(k + 7) % CH.len()]));
+            }
+            _ => {
+                raw.extend_from_slice(w);
+                raw.extend_from_slice(&enc(c));
+                raw.extend_from_slice(w);
+            }
+        }
+        self.stat(&format!("unicode-edge.{}.{}", ["first", "last", "both", "inner"][pos], ["literal", "decimal-ref", "hex-ref"][form]));
+        self.stat(&format!("unicode-edge.U+{:04X}", c));
+        GText::raw(&raw)
+    }
+
     /// a valid value for the spec in the current version (None: the spec has no value valid in this version)
     pub fn gen_value(&mut self, spec: &CharacterDataSpec) -> Option<GText> {
         let mut t = match spec {
@@ -269,6 +318,9 @@ impl<'a> G<'a> {
             }
             CharacterDataSpec::String { preserve_whitespace, .. } => {
                 self.stat(if *preserve_whitespace { "value.string-preserve" } else { "value.string" });
+                if self.chance(if *preserve_whitespace { 30 } else { 10 }) {
+                    return Some(self.unicode_edge_value());
+                }
                 let s = self.string_value(*preserve_whitespace);
                 return Some(GText { logical: s, kind: TKind::Str, lead: vec![], trail: vec![], raw: None });
             }
